@@ -7,6 +7,7 @@ import (
 	"os"
 	"os/exec"
 	"path/filepath"
+	"reflect"
 	"regexp"
 	"runtime"
 	"sort"
@@ -372,6 +373,61 @@ func c11Worker(args []string) {
 		orders[ord.String()] = true
 		if round < 2 {
 			res.Samples = append(res.Samples, "first acquisitions by goroutine: "+ord.String())
+		}
+	}
+	// struct types the process has never seen, met by several evaluators at the same moment
+	// (anything the library remembers per type is filled in under concurrency)
+	{
+		const workers = 8
+		evals := make([]*evalfilter.Eval, workers)
+		for w := range evals {
+			evals[w] = evalfilter.New(`return F0 == 1 && F7 == 8 && F39 == 40 && Name == "rec" && len(Tags) == 2;`)
+			if err := evals[w].Prepare(); err != nil {
+				res.Errors = append(res.Errors, "prepare: "+err.Error())
+			}
+		}
+		var mmu sync.Mutex
+		for tn := 0; tn < 150*rounds; tn++ {
+			fields := []reflect.StructField{{Name: "Name", Type: reflect.TypeOf("")}, {Name: "Tags", Type: reflect.TypeOf([]string{})}, {Name: fmt.Sprintf("Only%d_%d", seed, tn), Type: reflect.TypeOf(0)}}
+			for f := 0; f < 40; f++ {
+				fields = append(fields, reflect.StructField{Name: fmt.Sprintf("F%d", f), Type: reflect.TypeOf(0)})
+			}
+			typ := reflect.StructOf(fields)
+			objs := make([]interface{}, workers)
+			for w := range objs {
+				v := reflect.New(typ).Elem()
+				v.Field(0).SetString("rec")
+				v.Field(1).Set(reflect.ValueOf([]string{"a", "b"}))
+				for f := 0; f < 40; f++ {
+					v.Field(3 + f).SetInt(int64(f + 1))
+				}
+				if w%2 == 0 {
+					objs[w] = v.Interface()
+				} else {
+					objs[w] = v.Addr().Interface()
+				}
+			}
+			start := make(chan struct{})
+			var wgT sync.WaitGroup
+			for w := 0; w < workers; w++ {
+				wgT.Add(1)
+				go func(w int) {
+					defer wgT.Done()
+					<-start
+					ok, err := evals[w].Run(objs[w])
+					if err != nil || !ok {
+						mmu.Lock()
+						res.OwnMismatch = append(res.OwnMismatch, fmt.Sprintf("fresh struct type #%d, evaluator %d: Run gives %v err=%v (expected true)", tn, w, ok, err))
+						mmu.Unlock()
+					}
+				}(w)
+			}
+			close(start)
+			wgT.Wait()
+			res.OwnRuns += workers
+			if len(res.OwnMismatch) > 20 {
+				break
+			}
 		}
 	}
 	res.DistinctOrders = len(orders)
